@@ -156,10 +156,10 @@ CHECKS = {
         "level": "exploration",
         "technique": "property-based testing (rapid): target-address state x every account-creating message x signer; oracle = byte comparison of every pre-existing x/auth record before and after",
         "tests": [T("TestC09", 2500, 8000, qshards=2)],
-        "rule": "cases = target address state in {absent, base account without key, base account with public key and sequence > 0, continuous vesting account (optionally delegating), periodic / delayed / permanently locked vesting account of x/auth/vesting, module account, the vesting sender itself}; the vesting sender is not staking, has delegated vesting or has delegated free coins; x message in {pool send, direct vesting-account creation, split, move, move-by-denoms, cfesignature MsgCreateAccount with secp256k1 / ed25519 / malformed public-key JSON} x signer. cfesignature messages run through the app router (unroutable on this tree) and directly through keeper.NewMsgServerImpl with baseapp's accept/discard rule; a panic counts as rejection here. "
+        "rule": "cases = target address state in {absent, base account without key, base account with public key and sequence > 0, account with public key but without any coins, continuous vesting account (optionally delegating), periodic / delayed / permanently locked vesting account of x/auth/vesting, module account, the vesting sender itself}; the vesting sender is not staking, has delegated vesting or has delegated free coins; x message in {pool send, direct vesting-account creation, split, move, move-by-denoms, cfesignature MsgCreateAccount with secp256k1 / ed25519 / malformed public-key JSON} x signer. cfesignature messages run through the app router (unroutable on this tree) and directly through keeper.NewMsgServerImpl with baseapp's accept/discard rule; a panic counts as rejection here. "
                 "Oracle: the proto bytes of every account that existed before are unchanged afterwards, except that an accepted split/move may reduce the sender's own original vesting (all other fields equal). Non-trivial = the target address existed. Distinct = SHA-256 of (target state, message).",
         "min_nontrivial_fraction": 0.5,
-        "min_class_fraction": {"msg_*types.MsgCreateAccount": 0.1, "target_continuous_vesting": 0.06, "target_base_with_key_and_sequence": 0.06, "target_module_account": 0.06, "target_periodic_vesting": 0.06, "target_delayed_vesting": 0.06, "target_permanent_locked": 0.06},
+        "min_class_fraction": {"msg_*types.MsgCreateAccount": 0.1, "target_continuous_vesting": 0.05, "target_base_with_key_and_sequence": 0.05, "target_module_account": 0.05, "target_periodic_vesting": 0.05, "target_delayed_vesting": 0.05, "target_permanent_locked": 0.05, "target_base_with_key_without_funds": 0.05},
         "level_text": "Exhaustive-by-generation product of target states and account-creating messages with a byte-exact before/after oracle over the whole account store.",
         "level_note": "The signature module's Msg service is not registered with the app on this tree (DESIGN §2.6); its handlers are driven directly because the property anchors in them and registering the service is a one-line change.",
         "design_ref": "DESIGN.md §5 C09",
